@@ -31,7 +31,9 @@ TRUSTED = [
 
 THEOREMS = ["C11_comment_lines_words", "C11_comment_render", "C11_comment_words",
             "C11_comment_words_unsafe_refuted", "C11_comment_idempotent_refuted",
-            "C11_tokens_preserved", "C11_comments_preserved", "C09_linebreak_terminates", "C11_example"]
+            "C09_linebreak_terminates", "C09_linebreak_measure",
+            "C11_tokens_preserved", "C11_tokens_preserved_list", "C11_comments_preserved", "C11_build_string",
+            "C11_linebreak_example", "C11_example"]
 
 
 def write_corpus(ctx):
